@@ -428,7 +428,8 @@ def fact_order_standardRenderer_kill : List String := [
     "r.mtx.Lock",
     "r.mtx.Unlock",
     "r.execute(ansi.EraseEntireLine)",
-    "r.execute(\"\\r\")"]
+    "r.execute(\"\\r\")",
+    "r.repaint"]
 
 def fact_order_standardRenderer_listen : List String := [
     "r.ticker.Stop",
